@@ -123,6 +123,19 @@ def run(chk):
             how += '+framing-cut'
         add(b, body, ctype, buf, what, how, 'mutated' if (ctype == canon and cut is None) else 'raw', chunked, cut, rng.random() < 0.25,
             full_ok=what.startswith('forms+files'))
+    # well-formed forms whose part data ends like the beginning of a delimiter (bare CR, CRLF, CRLF-, CRLF--b), at every
+    # alignment of the scanner's window: what is delivered is still the data of delimiter-terminated parts
+    for b in (b'B', b'Bx'):
+        tl = len(b'\r\n--' + b)
+        for tail in ('\r', '\r\n', '\r\n-', '\r\n--', '\r\n--' + b.decode()[:1] + '!'):
+            if tail.endswith('!') and len(b) < 2:
+                tail = '\r\n--!'
+            for pad in range(0, 2 * tl + 1):
+                fs = [{'name': 'a', 'value': 'q' * pad + tail}, {'name': 'b', 'value': 'second'},
+                      {'name': 'f', 'filename': 'x.bin', 'ctype': 'application/octet-stream', 'data': b'w' * (pad % 5) + tail.encode()}]
+                good = mplib.encode_form(fs, b)
+                add(b, good, 'multipart/form-data; boundary=' + b.decode(), rng.choice([64, 1000, 100 * 1024]), 'forms+files', 'lookalike-tail', 'mutated',
+                    chunked=pad % 3 == 0)
     # exhaustive truncation of a few forms at EVERY offset
     for b in (b'B', b'Bx'):
         for _ in range(6 if thorough else 2):
